@@ -465,7 +465,24 @@ pub fn main() {
             }
             r
         }
-        "C09" => sync::run(&opts, "C09"),
+        "C09" => {
+            // set_scripts at every point of a sync + set_scripts commands that keep the scripts in
+            // the middle of fork histories (rollback, then the commands' rewind rule)
+            let fork_replay = opts
+                .replay
+                .as_ref()
+                .map(|p| std::fs::read_to_string(p).unwrap_or_default().contains("fork-history"))
+                .unwrap_or(false);
+            if fork_replay {
+                c04::run_mode(&opts, "C09")
+            } else {
+                let mut r = sync::run(&opts, "C09");
+                if opts.replay.is_none() {
+                    r.merge(c04::run_mode(&opts, "C09"));
+                }
+                r
+            }
+        }
         "C08" => {
             // crash injection on set_scripts / filter / download histories and on the first start,
             // then on fork histories (rollback and tip update writes)
